@@ -118,7 +118,19 @@ def gen_intr(rng, names):
             continue
         if small_expansion(tygen.to_op(dnode)):
             attr.append(tygen.type_text(dnode))
-    return {"kind": "intr", "type": t, "probes": probes, "attrs": sorted(set(attr))}
+    case = {"kind": "intr", "type": t, "probes": probes, "attrs": sorted(set(attr))}
+    if rng.random() < 0.4 and not union:
+        # a service: the response section is a second schema of the same definition (same field counts are likely)
+        r = tygen.gen_composite(rng, rng.choice([0, 1]), names, small_caps=True, allow_delim=False, force="struct")
+        while len(r["fs"]) < len(inner["fs"]) and rng.random() < 0.7:
+            r["fs"].append(["g%d" % len(r["fs"]), tygen.gen_type(rng, 1, names, small_caps=True, allow_delim=False)])
+        rp = []
+        for p in range(len(r["fs"]) + 1):
+            if small_expansion(tygen.to_op(dict(r, fs=r["fs"][:p]))["c"]):
+                rp.append(p)
+        case["resp"] = r
+        case["resp_probes"] = rp
+    return case
 
 
 def generate(rng, tier):
@@ -218,6 +230,18 @@ def _run_impl_raw(cases):
                         lines.append("@print %s._bit_length_" % a)
                         lines.append("@print %s._extent_" % a)
                     lines.append("@sealed" if t["k"] != "delim" else "@extent %d" % t["ext"])
+                    if "resp" in case:
+                        r = case["resp"]
+                        tygen.definition_files(r, files)
+                        files.pop("ns/%s.1.0.dsdl" % r["name"].split(".")[-1], None)
+                        lines.append("---")
+                        for p in range(len(r["fs"]) + 1):
+                            if p in case["resp_probes"]:
+                                lines.append("@print _offset_")
+                            if p < len(r["fs"]):
+                                name, f = r["fs"][p]
+                                lines.append(tygen.type_text(f) if name is None else "%s %s" % (tygen.type_text(f), name))
+                        lines.append("@sealed")
                     files[top] = "\n".join(lines) + "\n"
                     for rel, txt in files.items():
                         p = d / rel
@@ -262,7 +286,7 @@ def emit(case, obs):
     t = case["type"]
     inner = t["i"] if t["k"] == "delim" else t
     prints = list(obs["prints"])
-    if len(prints) != len(case["probes"]) + 2 * len(case["attrs"]):
+    if len(prints) != len(case["probes"]) + 2 * len(case["attrs"]) + len(case.get("resp_probes", [])):
         return FAIL
     items = []
     for p in case["probes"]:
@@ -275,6 +299,8 @@ def emit(case, obs):
         bl = parse_set(prints.pop(0))
         ext = parse_set(prints.pop(0))
         items.append("IAttr %s (Some %s) (Some %s)" % (tygen.emit_ty(by_name[a]), G.zlist(bl), G.z(ext[0] if len(ext) == 1 else -1)))
+    for p in case.get("resp_probes", []):
+        items.append("IIntr false %s %s" % (emit_fields(case["resp"]["fs"][:p]), G.zlist(parse_set(prints.pop(0)))))
     return G.lst(items)
 
 
@@ -302,7 +328,7 @@ def describe(case, obs):
         inner = t["i"] if t["k"] == "delim" else t
         keys += ["composite:" + t["k"], "fields=%d" % min(len(inner["fs"]), 6), "base:" + case["base"]["o"] + str(min(len(case["base"].get("v", [])), 4))]
     elif case["kind"] == "intr":
-        keys += ["probes=%d" % len(case["probes"]), "attrs=%d" % len(case["attrs"])]
+        keys += ["probes=%d" % len(case["probes"]), "attrs=%d" % len(case["attrs"])] + (["service"] if "resp" in case else [])
     if "error" in obs:
         keys.append("impl-error:" + obs["error"])
     return keys
